@@ -251,3 +251,95 @@ theorem reqHdr_fold (cred : Bool) (names : List Bytes) (st : RState) (hst : st.s
 
 end Folds
 end Cors
+
+namespace Cors
+open Gen Validate
+namespace Folds
+
+/-! ### the errors of the three folds, entry by entry -/
+
+def methodErr (n : Bytes) : List CfgErr :=
+  if n == Validate.star then []
+  else if !Methods.isValid n then [.method n .invalid]
+  else if Methods.isSafelisted (Methods.normalize n) then []
+  else if Methods.isForbidden (Methods.normalize n) then [.method (Methods.normalize n) .forbidden]
+  else []
+
+theorem methods_errs (names : List Bytes) (st : MState) :
+    (names.foldl methodStep st).errs = st.errs ++ names.flatMap methodErr := by
+  induction names generalizing st with
+  | nil => simp
+  | cons n ns ih =>
+    rw [List.foldl_cons, ih, List.flatMap_cons, ← List.append_assoc]
+    congr 1
+    unfold methodStep methodErr
+    split
+    · simp
+    · split
+      · rfl
+      · simp only []
+        split
+        · simp
+        · split
+          · rfl
+          · simp
+
+def reqHdrErr (n : Bytes) : List CfgErr :=
+  if n == Validate.star then []
+  else if !Headers.isValid n then [.headerName n false .invalid]
+  else if n.lower == Facts.headers_Authorization then []
+  else if Headers.isForbiddenRequestHeaderName n.lower then [.headerName n false .forbidden]
+  else if Headers.isProhibitedRequestHeaderName n.lower then [.headerName n false .prohibited]
+  else []
+
+theorem reqHdr_errs (cred : Bool) (names : List Bytes) (st : RState) :
+    (names.foldl (reqHdrStep cred) st).errs = st.errs ++ names.flatMap reqHdrErr := by
+  induction names generalizing st with
+  | nil => simp
+  | cons n ns ih =>
+    rw [List.foldl_cons, ih, List.flatMap_cons, ← List.append_assoc]
+    congr 1
+    unfold reqHdrStep reqHdrErr
+    split
+    · simp
+    · split
+      · rfl
+      · simp only []
+        split
+        · split
+          · simp
+          · split <;> simp
+        · split
+          · rfl
+          · split
+            · rfl
+            · simp
+
+def resHdrErr (cred : Bool) (n : Bytes) : List CfgErr :=
+  if n == Validate.star then (if cred then [.wildcardRespHdr] else [])
+  else if !Headers.isValid n then [.headerName n true .invalid]
+  else if Headers.isForbiddenResponseHeaderName n.lower then [.headerName n true .forbidden]
+  else if Headers.isProhibitedResponseHeaderName n.lower then [.headerName n true .prohibited]
+  else []
+
+theorem resHdr_errs (cred : Bool) (names : List Bytes) (st : EState) :
+    (names.foldl (resHdrStep cred) st).errs = st.errs ++ names.flatMap (resHdrErr cred) := by
+  induction names generalizing st with
+  | nil => simp
+  | cons n ns ih =>
+    rw [List.foldl_cons, ih, List.flatMap_cons, ← List.append_assoc]
+    congr 1
+    unfold resHdrStep resHdrErr
+    split
+    · rfl
+    · split
+      · rfl
+      · simp only []
+        split
+        · rfl
+        · split
+          · rfl
+          · split <;> simp
+
+end Folds
+end Cors
